@@ -338,7 +338,28 @@ func (p *Path) checkWith(c *Term, wantModel bool) bool {
 		p.modelValid = true
 	}
 	s.Pop(sv)
+	if p.w.cfg.Cross && r == Unsat {
+		// An unsat answer is a universal claim (no input takes this side /
+		// violates this assertion): confirm it on the other solvers.
+		p.crossUnsat(c)
+	}
 	return r == Sat
+}
+
+func (p *Path) crossUnsat(c *Term) {
+	for _, s := range p.w.cross {
+		s.Reset()
+		for _, t := range p.pc {
+			s.Assert(t)
+		}
+		s.Assert(c)
+		r, err := s.Check()
+		p.w.crossChecked++
+		if err != nil || r != Unsat {
+			p.w.crossDisagree++
+			p.w.ex.halt(fmt.Sprintf("cross-solver disagreement in %s: z3 unsat, %s=%v err=%v", p.w.cfg.Harness, s.name, r, err))
+		}
+	}
 }
 
 func (p *Path) allVars(extra *Term) []*Term {
@@ -567,9 +588,6 @@ func (p *Path) Assert(c *Term, kind, msg, where string) {
 	}
 	nc := p.f.Not(c)
 	p.w.assertQueries++
-	if p.w.cfg.Cross {
-		p.crossCheck(nc)
-	}
 	if p.checkWith(nc, true) {
 		m := map[string]uint64{}
 		for _, v := range p.inputs {
